@@ -19,7 +19,7 @@ from simkit.ddmin import ddmin_list
 from simkit.eventlog import EventLog, digest_of
 from simkit import interrupt as intr
 from simkit.runner import kernpy_src
-from simkit.envknobs import debug_logging
+from simkit.envknobs import debug_logging, closed_stderr
 
 LETTERS = 'cdefgab'
 ALTS = (-3, -2, -1, 0, 1, 2, 3)
@@ -76,7 +76,7 @@ class C16:
                    'objects returned by to_transposed are modelled by the same call on a fresh equal object (reference path)',
                    'seeded search samples histories; only the 539-spelling grid is covered exhaustively']
     PROBES = ['export_repeated', 'reimport', 'bad_call_then_valid', 'interrupt_delivered', 'direct_construct_export', 'triple_alteration',
-              'octave_extreme', 'edited_through_setters', 'reentrant_callback_delivered', 'cold_first_export_interrupted', 'used_from_a_new_thread', 'graphic_export_of_a_pool_object']
+              'octave_extreme', 'edited_through_setters', 'reentrant_callback_delivered', 'cold_first_export_interrupted', 'used_from_a_new_thread', 'graphic_export_of_a_pool_object', 'pool_object_from_the_american_importer', 'name_in_sharp_notation']
 
     # ---------------------------------------------------------------- plan
     def gen_plan(self, seed: int, index: int, tier: str) -> dict:
@@ -96,12 +96,18 @@ class C16:
             out = []
             for _ in range(n):
                 kind = seeds.weighted(rng, [('imp', 4), ('new', 3), ('exp', 5), ('exp_am', 2), ('read', 3), ('tr', 2), ('reimp', 2),
-                                            ('exp0', 2), ('set', 2.5), ('thread', 0.5), ('exp_gk', 1.5)])
+                                            ('exp0', 2), ('set', 2.5), ('thread', 0.5), ('exp_gk', 1.5), ('imp_am', 0.8)])
                 if kind == 'imp':
                     out.append({'op': 'imp', 's': spell(*rng.choice(GRID))})
+                elif kind == 'imp_am':
+                    # the pool object comes from the OTHER importer (American notation, sharps only: its flats are not usable today)
+                    l, a, o = rng.choice([g for g in GRID if g[1] >= 0 and 0 <= g[2] <= 9])
+                    out.append({'op': 'imp_am', 's': l.upper() + '#' * a + str(o), 'name': model_name(l, a), 'oct': o})
+                    out.append({'op': 'exp', 'o': -1})
                 elif kind == 'new':
                     l, a, o = rng.choice(GRID)
-                    out.append({'op': 'new', 'name': model_name(l, a), 'oct': o})
+                    # the documented '#' notation for sharps is as good a name as '+'
+                    out.append({'op': 'new', 'name': model_name(l, a), 'oct': o, 'sharp': rng.random() < 0.3})
                 elif kind == 'exp':
                     out.append({'op': 'exp', 'o': rng.randrange(64)})
                 elif kind == 'exp0':
@@ -127,7 +133,8 @@ class C16:
                     # the pitch object is mutable through its public setters: edit it to another grid value
                     l, a, o = rng.choice(GRID)
                     what = rng.choice(['name', 'octave', 'both'])
-                    out.append({'op': 'set', 'o': rng.choice([0, rng.randrange(64)]), 'what': what, 'name': model_name(l, a), 'oct': o})
+                    out.append({'op': 'set', 'o': rng.choice([0, rng.randrange(64)]), 'what': what, 'name': model_name(l, a), 'oct': o,
+                                'sharp': rng.random() < 0.3})
                     if rng.random() < 0.6:
                         out.append({'op': 'exp', 'o': out[-1]['o']})
                 if faulty and frng.random() < 0.12:
@@ -168,7 +175,9 @@ class C16:
         return {'property': self.PROPERTY, 'config': 'fault_injecting' if faulty else 'fault_free',
                 'primary': list(primary), 'ops': ops, 'warnings': 'error' if st['env'].random() < 0.1 else 'default',
                 # second interpreter-environment knob: the application has switched logging to DEBUG (logging.basicConfig(level=DEBUG))
-                'logging': 'DEBUG' if st['env'].random() < 0.1 else 'default'}
+                'logging': 'DEBUG' if st['env'].random() < 0.1 else 'default',
+                # third knob: sys.stderr is a closed stream (daemon, `2>&-`): nothing in a codec call may depend on writing to it
+                'stderr': 'closed' if st['env'].random() < 0.06 else 'default'}
 
     def summarize(self, plan):
         return {'config': plan['config'], 'primary': spell(*plan['primary']), 'ops': plan['ops']}
@@ -179,7 +188,7 @@ class C16:
         with warnings.catch_warnings():
             # interpreter environment knob: 10% of the runs treat every warning as an error (python -W error)
             warnings.simplefilter('error' if plan.get('warnings') == 'error' else 'ignore')
-            with debug_logging(plan.get('logging') == 'DEBUG'):
+            with debug_logging(plan.get('logging') == 'DEBUG'), closed_stderr(plan.get('stderr') == 'closed'):
                 return self._execute(plan)
 
     def _execute(self, plan: dict) -> dict:
@@ -332,9 +341,24 @@ class C16:
                   if after_fault:
                       bump(probes, 'bad_call_then_valid')
                   after_fault = False
+              elif kind == 'imp_am':
+                  try:
+                      o = kp.AmericanPitchImporter().import_pitch(op['s'])
+                  except Exception as e:
+                      seq = log.emit('client', 'imp_am', op['s'], 'raised ' + type(e).__name__)
+                      add_v('import-raised', 'import-raised/american', seq, 'a pitch object', type(e).__name__, spelling=op['s'])
+                      continue
+                  seq = log.emit('client', 'imp_am', op['s'], state(o))
+                  if state(o) != [op['name'], op['oct']]:
+                      add_v('import-wrong', 'import-wrong/american', seq, [op['name'], op['oct']], state(o), spelling=op['s'])
+                  pool.append(o)
+                  model.append((op['name'], op['oct']))
+                  bump(probes, 'pool_object_from_the_american_importer')
               elif kind == 'new':
                   try:
-                      o = kp.AgnosticPitch(op['name'], op['oct'])
+                      o = kp.AgnosticPitch(op['name'].replace('+', '#') if op.get('sharp') else op['name'], op['oct'])
+                      if op.get('sharp') and '+' in op['name']:
+                          bump(probes, 'name_in_sharp_notation')
                   except Exception as e:
                       seq = log.emit('client', 'new', [op['name'], op['oct']], 'raised ' + type(e).__name__)
                       add_v('construct-raised', 'construct-raised', seq, 'a pitch object', type(e).__name__, name=op['name'])
@@ -461,7 +485,7 @@ class C16:
                   want = [op['name'] if op['what'] in ('name', 'both') else model[touched][0], op['oct'] if op['what'] in ('octave', 'both') else model[touched][1]]
                   try:
                       if op['what'] in ('name', 'both'):
-                          o.name = op['name']
+                          o.name = op['name'].replace('+', '#') if op.get('sharp') else op['name']
                       if op['what'] in ('octave', 'both'):
                           o.octave = op['oct']
                       got = state(o)
